@@ -36,7 +36,7 @@ PROPS = {
    'must_reach': ['switch_in_free_mt', 'switch_in_delayed_partial', 'delayed_freeing_observed'],
  },
  'C09': {
-   'families': [('c09_exit', 5, ALL), ('c09_userheap_adopter', 2, ALL), ('c12_bigarena', 0.3, ALL)],
+   'families': [('c09_exit', 5, ALL), ('c09_adopt_race', 3, ALL), ('c09_userheap_adopter', 2, ALL), ('c12_bigarena', 0.3, ALL)],
    'runs': {'quick': 1500, 'thorough': 100000},
    'rule': 'non-trivial = at least one segment was abandoned and one reclaimed in the run; distinct = distinct (API hash, hot-switch signature)',
    'nontrivial': lambda r: sw(r, 'segment_abandoned') > 0 and sw(r, 'segment_reclaimed') > 0,
@@ -77,7 +77,7 @@ PROPS = {
    'must_reach': ['zero_checked', 'realloc_inplace', 'realloc_moved', 'segment_reclaimed', 'heap_destroy'],
  },
  'C05': {
-   'families': [('c05_realloc', 1, ALL)],
+   'families': [('c05_realloc', 2, ALL), ('c05_pagecycle', 1, ALL)],
    'runs': {'quick': 2400, 'thorough': 150000},
    'rule': 'non-trivial = at least 5 realloc-family calls, with both in-place and moving outcomes counted as probes; distinct = distinct API result hash',
    'nontrivial': lambda r: r.get('reallocs', 0) >= 5,
